@@ -84,6 +84,29 @@ impl Timestamp {
             ts_in_range(self.total_nanos()),
     { unimplemented!() }
 
+    // jiff: `Timestamp::now()`: the current system time.  AMBIENT input: nothing is known about the result but its
+    // range.  `min`/`max` (std `Ord`): the smaller / larger instant.  None of the three is used by the pinned tree;
+    // they are here so that an edit which mixes the wall clock into a conversion (C17: the archive is a function of
+    // source and history only) is decided by the function's contract instead of leaving the unit unposable.
+    #[verifier::external_body]
+    fn now() -> (r: Timestamp)
+        ensures ts_in_range(r.total_nanos()),
+    { unimplemented!() }
+
+    #[verifier::external_body]
+    fn min(self, other: Timestamp) -> (r: Timestamp)
+        ensures
+            r == self || r == other,
+            r.total_nanos() <= self.total_nanos() && r.total_nanos() <= other.total_nanos(),
+    { unimplemented!() }
+
+    #[verifier::external_body]
+    fn max(self, other: Timestamp) -> (r: Timestamp)
+        ensures
+            r == self || r == other,
+            r.total_nanos() >= self.total_nanos() && r.total_nanos() >= other.total_nanos(),
+    { unimplemented!() }
+
     // jiff: Timestamp::new(second, nanosecond): Err unless second is in UnixSeconds' range and nanosecond in
     // -999_999_999..=999_999_999, and Err for (MIN second, negative nanosecond); mixed signs are accepted and
     // normalised, the instant is second + nanosecond/1e9.
